@@ -40,7 +40,7 @@ MANIFEST = {
             'one write or one memmap store, torn pages and durability beyond the page cache are outside the model. Callers must pass batches of '
             'exactly batch_size rows and 0 <= length <= len to truncate. __setstate__/__init__/delete and OutputPool save/open: bounded only.',
     'technique': 'deductive: crash-Hoare-logic VCs from the real AST (pyvc proxies for the file object / memmap, ghost disk + history), z3/cvc5; '
-                 'bounded stand-in: all op sequences <= 4 (quick) / <= 5, one configuration <= 6 (thorough) x kill around every file call of the last op',
+                 'bounded stand-in: all op sequences <= 4 (quick) / <= 5, one configuration <= 6 (thorough) x kill around every file call of the last op; sequences <= 3/4 on stores opened over an existing longer or ragged file',
 }
 
 import z3
